@@ -111,6 +111,19 @@ def euler(a):
     return math.e * a
 
 
+def cross_div(x0, x1):
+    # parameter names equal to typical model names: exercises renaming onto own names
+    return x0 / (1.0 + x1 * x1)
+
+
+def cross_ma(p0, x0):
+    return p0 * x0
+
+
+def cross_sub(x1, x0, p0):
+    return p0 * (x1 - 0.5 * x0)
+
+
 def untranslatable_loop(a):
     r = a
     for _ in range(2):
@@ -153,6 +166,9 @@ ARITY = {
     "circle": 1,
     "root": 1,
     "euler": 1,
+    "cross_div": 2,
+    "cross_ma": 2,
+    "cross_sub": 3,
     "untranslatable_loop": 1,
     "untranslatable_exp": 1,
     "untranslatable_aug": 1,
